@@ -273,9 +273,9 @@ func c41(c *Ctx) {
 			}
 		}
 		if c.Expect(ins != nil, nil, add, "add:inserts", "addEntry does not insert") {
-			c.Expect(ins.Block() == st.Block() && ParamV("key")(ins.Key) && ParamV("entry")(ins.Value), ins, add, "add:insert-paired-with-size", "insertion and size accounting are on different paths or for different entries")
+			c.Expect(together(ins, st) && ParamV("key")(ins.Key) && ParamV("entry")(ins.Value), ins, add, "add:insert-paired-with-size", "insertion and size accounting are on different paths or for different entries")
 			la := one(c, "lru add", callsIn(add, Callee(rlsp, "lru.addEntry")))
-			c.Expect(la.Block() == st.Block() && FieldLoad(fKeys)(la.Common().Args[0]) && ParamV("key")(la.Common().Args[1]), la, add, "add:lru-paired", "the LRU list is not updated with the insertion")
+			c.Expect(together(la, st) && FieldLoad(fKeys)(la.Common().Args[0]) && ParamV("key")(la.Common().Args[1]), la, add, "add:lru-paired", "the LRU list is not updated with the insertion")
 		}
 		del := c.fn(rlsp, dc+".deleteAndCleanup")
 		sd := one(c, "currentSize store in deleteAndCleanup", storesToField(del, fCur))
@@ -287,11 +287,11 @@ func c41(c *Ctx) {
 		}) {
 			call := in.(*ssa.Call)
 			nd++
-			c.Expect(FieldLoad(fEnt)(call.Call.Args[0]) && ParamV("key")(call.Call.Args[1]) && in.Block() == sd.Block(), in, del, "delete:paired-with-size", "deletion and size accounting are not paired")
+			c.Expect(FieldLoad(fEnt)(call.Call.Args[0]) && ParamV("key")(call.Call.Args[1]) && together(in, sd), in, del, "delete:paired-with-size", "deletion and size accounting are not paired")
 		}
 		c.Expect(nd == 1, nil, del, "delete:one-delete", "expected one delete in deleteAndCleanup")
 		lr := one(c, "lru remove", callsIn(del, Callee(rlsp, "lru.removeEntry")))
-		c.Expect(lr.Block() == sd.Block() && ParamV("key")(lr.Common().Args[1]), lr, del, "delete:lru-paired", "the LRU list is not updated with the deletion")
+		c.Expect(together(lr, sd) && ParamV("key")(lr.Common().Args[1]), lr, del, "delete:lru-paired", "the LRU list is not updated with the deletion")
 		up := c.fn(rlsp, dc+".updateEntrySize")
 		us := storesToField(up, fCur)
 		ss := storesToField(up, fSize)
@@ -449,7 +449,7 @@ func c41(c *Ctx) {
 			c.Expect(BinOpV(token.REM, pos, FieldLoad(fBins))(ia.Index), bs[0], add, "add:bucket-is-pos-mod-bins", "the sample is added to a bucket other than pos mod bins")
 			c.ValueIs(bs[0], bs[0].Val, "add:bucket+=v", BinOpV(token.ADD, func(v ssa.Value) bool { u, ok := v.(*ssa.UnOp); return ok && u.X == ssa.Value(ia) || ok && sameIndexAddr(u.X, ia) }, ParamV("v")))
 			c.ValueIs(ts[0], ts[0].Val, "add:total+=v", BinOpV(token.ADD, FieldLoad(fTot), ParamV("v")))
-			c.Expect(bs[0].Block() == ts[0].Block(), ts[0], add, "add:bucket-and-total-together", "bucket and total are updated on different paths")
+			c.Expect(together(bs[0], ts[0]), ts[0], add, "add:bucket-and-total-together", "bucket and total are updated on different paths")
 			c.Unreachable(bs[0], "add:too-old-sample-dropped", Cmp(BinOpV(token.SUB, FieldLoad(fHead), pos), token.GEQ, FieldLoad(fBins)))
 		}
 		adv := c.fn(rlsa, lb+".advance")
@@ -458,7 +458,7 @@ func c41(c *Ctx) {
 			ia := bs[0].Addr.(*ssa.IndexAddr)
 			c.ValueIs(bs[0], bs[0].Val, "advance:bucket-cleared", ConstInt(0))
 			c.ValueIs(ts[0], ts[0].Val, "advance:total-=bucket", BinOpV(token.SUB, FieldLoad(fTot), func(v ssa.Value) bool { u, ok := v.(*ssa.UnOp); return ok && sameIndexAddr(u.X, ia) }))
-			c.Expect(bs[0].Block() == ts[0].Block() && instrDominates(ts[0], bs[0]), ts[0], adv, "advance:subtract-then-clear", "the bucket is cleared before it is subtracted from the total")
+			c.Expect(thenAlways(ts[0], bs[0]), ts[0], adv, "advance:subtract-then-clear", "the bucket is cleared before it is subtracted from the total")
 			newHead := func(v ssa.Value) bool {
 				b, ok := v.(*ssa.BinOp)
 				return ok && b.Op == token.QUO && CallRes(CalleeX("time", "Time.UnixNano"), 0)(b.X)
